@@ -891,7 +891,7 @@ Proof.
 Qed.
 
 Theorem refines_script c args s o :
-  loop_free_script c = true -> step_script rnd c args s = Some o -> o = Done (step_s c args s).
+  loop_free_script c = true -> step_script rnd ord c args s = Some o -> o = Done (step_s c args s).
 Proof.
   destruct c; cbn [loop_free_script step_script]; intros H E; try discriminate; injection E as <-;
     auto using rs_array_is_empty, rs_map_is_empty, rs_set_is_empty, rs_map_contains_key.
@@ -1039,3 +1039,191 @@ Lemma set_from_array_spec (l : list elem) (v : str) :
 Proof.
   rewrite elem_of_list_to_set, elem_of_list_fmap. split; intros (e & H1 & H2); eauto.
 Qed.
+
+Section ScriptRefine2.
+Variable rnd : nat -> handle.
+Variable ord : nat -> list str -> list str.
+
+(* array_concat: the translated loops compute the as-is definition (hence, by concat_asis_fresh, the
+   specification whenever no earlier call failed); assumptions: the key drawn for the result is not
+   live and is not one of the arguments *)
+Lemma cc_validate_eq args i s : cc_validate args i s = first_bad (hs s) args i.
+Proof.
+  revert i; induction args as [|a r IH]; intros i; cbn [cc_validate first_bad]; [reflexivity|].
+  rewrite (r_is_array rnd ord [a] s). unfold step_s. cbv beta iota zeta delta [spec]. cbn [apply].
+  unfold is_live_array. destruct (look_list (hs s) a); cbn [ok_bool bool_str].
+  - rewrite str_eqb_refl. apply IH.
+  - replace (str_eqb s_false s_true) with false by (symmetry; apply bool_decide_eq_false_2; discriminate). reflexivity.
+  - replace (str_eqb s_false s_true) with false by (symmetry; apply bool_decide_eq_false_2; discriminate). reflexivity.
+Qed.
+
+Definition items_of (st : store) (a : str) : list elem :=
+  match look_list st a with Found l => l | _ => [] end.
+
+Lemma as_text_app l1 l2 : as_text (l1 ++ l2) = as_text l1 ++ as_text l2.
+Proof. unfold as_text. apply fmap_app. Qed.
+
+Lemma cc_items_list arg key l : arg <> key ->
+  forall fuel it s acc, (it <= length l)%nat -> (length l - it < fuel)%nat ->
+  hs s !! arg = Some (HList l) -> hs s !! key = Some (HList acc) ->
+  cc_items fuel arg key it s =
+  Done (None, with_hs s (<[key := HList (acc ++ as_text (drop it l))]> (hs s))).
+Proof.
+  intros Hne. induction fuel as [|f IH]; intros it s acc Hit Hf Ha Hk; [lia|].
+  cbn [cc_items]. unfold next_iteration. rewrite Ha.
+  destruct (l !! it) as [e|] eqn:El; cbn [fmap option_fmap option_map].
+  - rewrite (r_array_push rnd ord [key; elem_str e] s). unfold step_s. cbv beta iota zeta delta [spec].
+    unfold on, look_list. rewrite Hk. cbn [apply].
+    apply lookup_lt_Some in El as Hlt.
+    rewrite (IH (S it) _ (acc ++ (EStr <$> [elem_str e]))); [|lia|lia| |].
+    + cbn [with_hs hs draws stale]. rewrite insert_insert. rewrite (drop_S l e it El).
+      do 5 f_equal. rewrite <- app_assoc. reflexivity.
+    + cbn [with_hs hs]. rewrite lookup_insert_ne by congruence. exact Ha.
+    + cbn [with_hs hs]. apply lookup_insert.
+  - apply lookup_ge_None in El. rewrite drop_ge by lia. cbn. 
+    rewrite app_nil_r, (insert_id _ _ _ Hk), with_hs_id. reflexivity.
+Qed.
+
+Lemma cc_items_spec arg key s acc : arg <> key -> hs s !! key = Some (HList acc) ->
+  cc_items (cc_fuel s arg) arg key 0 s =
+  Done (None, with_hs s (<[key := HList (acc ++ as_text (items_of (hs s) arg))]> (hs s))).
+Proof.
+  intros Hne Hk. unfold cc_fuel, items_of, look_list.
+  destruct (hs s !! arg) as [[l|m|x|t]|] eqn:Ea;
+    try (cbn [cc_items]; unfold next_iteration; rewrite Ea; cbn;
+         rewrite app_nil_r, (insert_id _ _ _ Hk), with_hs_id; reflexivity).
+  rewrite (cc_items_list arg key l Hne _ 0%nat s acc); [|lia|lia|exact Ea|exact Hk].
+  now rewrite drop_0.
+Qed.
+
+Lemma bind_ext_in {A B} (f g : A -> list B) (l : list A) :
+  (forall a, a ∈ l -> f a = g a) -> l ≫= f = l ≫= g.
+Proof.
+  induction l as [|x l IH]; intros H; cbn [mbind list_bind]; [reflexivity|].
+  rewrite (H x) by apply elem_of_list_here. f_equal. apply IH. intros a Ha. apply H. now apply elem_of_list_further.
+Qed.
+
+Lemma cc_args_spec key args : key ∉ args ->
+  forall s acc, hs s !! key = Some (HList acc) ->
+  cc_args args key s =
+  Done (None, with_hs s (<[key := HList (acc ++ as_text (args ≫= items_of (hs s)))]> (hs s))).
+Proof.
+  induction args as [|a r IH]; intros Hnin s acc Hk; cbn [cc_args].
+  - cbn. rewrite app_nil_r, (insert_id _ _ _ Hk), with_hs_id. reflexivity.
+  - apply not_elem_of_cons in Hnin as [Hka Hkr].
+    rewrite (cc_items_spec a key s acc); [|congruence|exact Hk].
+    rewrite (IH Hkr _ (acc ++ as_text (items_of (hs s) a))); [|cbn [with_hs hs]; apply lookup_insert].
+    cbn [with_hs hs draws stale]. rewrite insert_insert. do 5 f_equal.
+    rewrite <- app_assoc. f_equal. cbn [mbind list_bind]. rewrite as_text_app. f_equal. f_equal.
+    apply bind_ext_in. intros a' Ha'.
+    unfold items_of, look_list. rewrite lookup_insert_ne; [reflexivity|].
+    intros <-. contradiction.
+Qed.
+
+Lemma rs_array_concat args s :
+  hs s !! rnd (draws s) = None -> rnd (draws s) ∉ args ->
+  script_array_concat rnd args s = Done (concat_asis rnd args s).
+Proof.
+  intros Hfresh Hnin. unfold script_array_concat, concat_asis.
+  rewrite cc_validate_eq. destruct (first_bad _ _ _) as [j|]; [reflexivity|].
+  rewrite (r_array rnd ord [] (MS (hs s) (draws s) None)). unfold step_s at 1.
+  cbv beta iota zeta delta [spec]. cbn [apply put_handle hs draws stale fmap list_fmap].
+  set (key := rnd (draws s)) in *.
+  rewrite (cc_args_spec key args Hnin _ []); [|cbn [hs]; apply lookup_insert].
+  unfold with_hs. cbn [hs draws stale app]. rewrite insert_insert.
+  replace (args ≫= items_of (<[key:=HList []]> (hs s)))
+    with (args ≫= (fun a => match look_list (hs s) a with Found l => l | _ => [] end)); [reflexivity|].
+  apply bind_ext_in. intros a Ha. unfold items_of, look_list.
+  rewrite lookup_insert_ne; [reflexivity|]. intros <-. contradiction.
+Qed.
+
+(* map_contains_value: the answer of the specification; the temporary key array is gone afterwards;
+   assumptions: the drawn key is not live, the empty string is not a live handle, and the key order
+   is a permutation of the keys *)
+Definition cmp (m : gmap str elem) (value key : str) : bool :=
+  str_eqb (default [] (elem_str <$> m !! key)) value.
+
+(* the loop over the key array [ks] from position [it]: stops (by releasing the key array) at the
+   first key bound to the value *)
+Lemma mcv_loop_spec a1 karr value m ks : a1 <> karr ->
+  forall fuel it found s, (it <= length ks)%nat -> (length ks - it < fuel)%nat ->
+  hs s !! a1 = Some (HMap m) -> hs s !! karr = Some (HList (EStr <$> ks)) ->
+  mcv_loop fuel a1 karr value it found s =
+  if existsb (cmp m value) (drop it ks)
+  then Done (None, true, with_hs s (delete karr (hs s)))
+  else Done (None, (if decide (it = length ks) then found else false), s).
+Proof.
+  intros Hne. induction fuel as [|f IH]; intros it found s Hit Hf Ha Hk; [lia|].
+  cbn [mcv_loop]. unfold next_iteration. rewrite Hk, list_lookup_fmap.
+  destruct (ks !! it) as [key|] eqn:El; cbn [fmap option_fmap option_map elem_str].
+  - apply lookup_lt_Some in El as Hlt. rewrite (drop_S ks key it El). cbn [existsb].
+    rewrite (r_map_get rnd ord [a1; key] s). unfold step_s. cbv beta iota zeta delta [spec].
+    unfold on, look_map. rewrite Ha. cbn [apply]. fold (cmp m value key).
+    destruct (cmp m value key) eqn:Ec; cbn [orb].
+    + (* found: release the key array, the next test sees no list *)
+      unfold cmd_release. rewrite Hk. destruct f as [|f']; [lia|].
+      cbn [mcv_loop]. unfold next_iteration. cbn [with_hs hs]. rewrite lookup_delete. reflexivity.
+    + rewrite (IH (S it) false s); [|lia|lia|exact Ha|exact Hk].
+      destruct (existsb (cmp m value) (drop (S it) ks)); [reflexivity|].
+      destruct (decide (S it = length ks)), (decide (it = length ks)); try reflexivity; lia.
+  - apply lookup_ge_None in El. rewrite drop_ge by lia. cbn [existsb].
+    destruct (decide (it = length ks)); [reflexivity|lia].
+Qed.
+
+Lemma existsb_cmp_values (m : gmap str elem) (value : str) ks :
+  ks ≡ₚ (map_to_list m).*1 ->
+  existsb (cmp m value) ks = bool_decide (value ∈ map_values m).
+Proof.
+  intros P. destruct (existsb (cmp m value) ks) eqn:E.
+  - symmetry. apply bool_decide_eq_true. apply existsb_exists in E as (key & Hin & Hc).
+    unfold cmp, str_eqb in Hc. apply bool_decide_eq_true in Hc.
+    apply elem_of_list_In in Hin. rewrite P in Hin.
+    apply elem_of_list_fmap in Hin as ([k e] & -> & Hke). apply elem_of_map_to_list in Hke.
+    cbn [fst] in Hc. rewrite Hke in Hc. cbn in Hc. apply map_values_spec. eauto.
+  - symmetry. apply bool_decide_eq_false. intros Hv. apply map_values_spec in Hv as (k & e & Hk & He).
+    assert (Hin : k ∈ ks).
+    { rewrite P. apply elem_of_list_fmap. exists (k, e). split; [reflexivity|]. now apply elem_of_map_to_list. }
+    assert (existsb (cmp m value) ks = true); [|congruence].
+    apply existsb_exists. exists k. split; [now apply elem_of_list_In|].
+    unfold cmp, str_eqb. rewrite Hk. cbn. now apply bool_decide_eq_true.
+Qed.
+
+Theorem rs_map_contains_value args s :
+  (forall n l, ord n l ≡ₚ l) ->
+  hs s !! rnd (draws s) = None -> hs s !! ([] : str) = None ->
+  exists s', script_map_contains_value rnd ord args s = Done ((step_s rnd ord CMapContainsValue args s).1, s') /\
+             hs s' = hs s /\ stale s' = stale s.
+Proof.
+  intros ord_perm Hfresh Hemp. unfold script_map_contains_value.
+  destruct args as [|a1 [|a2 rest]]; try (eexists; split; [reflexivity|split; reflexivity]).
+  rewrite (rs_map_is_empty rnd ord [a1] s). unfold step_s. cbv beta iota zeta delta [spec].
+  unfold on, look_map. destruct (hs s !! a1) as [[l|m|x|t]|] eqn:Ea; cbn [apply fst];
+    try (eexists; split; [reflexivity|split; reflexivity]).
+  unfold ok_bool. destruct (decide (m = ∅)) as [->|Hm].
+  - rewrite bool_decide_eq_true_2 by reflexivity. cbn [bool_str]. rewrite str_eqb_refl.
+    unfold cmd_release. rewrite Hemp.
+    replace (bool_decide (a2 ∈ map_values ∅)) with false.
+    2:{ symmetry. apply bool_decide_eq_false_2. unfold map_values. rewrite map_to_list_empty. apply not_elem_of_nil. }
+    eexists. split; [reflexivity|split; reflexivity].
+  - rewrite (bool_decide_eq_false_2 (m = ∅)) by exact Hm. cbn [bool_str].
+    replace (str_eqb s_false s_true) with false by (symmetry; apply bool_decide_eq_false_2; discriminate).
+    rewrite (r_map_keys rnd ord [a1] s). unfold step_s. cbv beta iota zeta delta [spec].
+    unfold on, look_map. rewrite Ea. cbn [apply put_handle].
+    set (karr := rnd (draws s)) in *. set (ks := ord (draws s) (map_to_list m).*1).
+    assert (Hne : a1 <> karr) by (intros ->; congruence).
+    cbn [hs]. rewrite lookup_insert, fmap_length.
+    rewrite (mcv_loop_spec a1 karr a2 m ks Hne); [|lia|lia| |]; cycle 1.
+    { cbn [hs]. rewrite lookup_insert_ne by congruence. exact Ea. }
+    { cbn [hs]. apply lookup_insert. }
+    rewrite drop_0, (existsb_cmp_values m a2 ks (ord_perm _ _)).
+    destruct (bool_decide (a2 ∈ map_values m)) eqn:Eb.
+    + unfold cmd_release. cbn [with_hs hs]. rewrite lookup_delete.
+      eexists. split; [reflexivity|]. cbn [hs stale]. split; [|reflexivity].
+      rewrite delete_insert by exact Hfresh. reflexivity.
+    + unfold cmd_release. cbn [hs]. rewrite lookup_insert.
+      eexists. split.
+      * destruct (decide (0%nat = length ks)); reflexivity.
+      * cbn [with_hs hs stale]. split; [|reflexivity].
+        rewrite delete_insert by exact Hfresh. reflexivity.
+Qed.
+End ScriptRefine2.
